@@ -12,8 +12,10 @@
    all blocks provided every definition evaluates at its place; `inline_lookup`/`subst` replace references by their
    defining expressions (a description without locals).
 
-   Expressions: the fragment the correspondence harness prints -- literals (string, list of strings, map of strings),
-   references, string interpolation, concat() on lists, merge() on maps.  The other registered functions are library
+   Expressions: the fragment the correspondence harness prints -- literals (string, list of strings, map of strings,
+   null), references, string interpolation, concat() on lists, merge() on maps, coalesce() (first argument that is not
+   null).  null is a VALUE: a local set to null exists, hides an earlier definition of its name, and an attribute of the
+   body that evaluates to null leaves its field out (`field_val`, `parse_hcl_fields`).  The other registered functions are library
    oracles exercised by the `scn` cases.  Evaluation is partial: an unknown attribute of `local`, a type mismatch and
    an attribute defined twice in a block are explicit failures (None = the file is rejected with diagnostics).
    Executable definitions only. *)
@@ -25,14 +27,16 @@ Local Open Scope N_scope.
 Inductive lval :=
 | LS (s : str)
 | LL (l : list str)
-| LM (kvs : list (str * str)).
+| LM (kvs : list (str * str))
+| LNull.                         (* cty null: what `null`, and any local bound to it, evaluates to *)
 
 Inductive lexpr :=
 | ELit (v : lval)
 | ERef (name : str)              (* local.name *)
 | ECat (a b : lexpr)             (* "${a}${b}" *)
 | EConcat (a b : lexpr)          (* concat(a, b) *)
-| EMerge (a b : lexpr).          (* merge(a, b): the keys of b replace those of a *)
+| EMerge (a b : lexpr)           (* merge(a, b): the keys of b replace those of a; a null argument is skipped *)
+| ECoalesce (a b : lexpr).       (* coalesce(a, b): the first argument that is not null *)
 
 Definition block := list (str * lexpr).
 
@@ -48,6 +52,23 @@ Definition has_key (k : str) (kvs : list (str * str)) : bool :=
 (* cty merge: every key once, the value of the later argument *)
 Definition merge_kvs (a b : list (str * str)) : list (str * str) :=
   filter (fun kv => negb (has_key (fst kv) b)) a ++ b.
+
+(* merge() skips null arguments (stdlib.MergeFunc: AllowNull, `if arg.IsNull() { continue }`) *)
+Definition as_map (v : lval) : option (list (str * str)) :=
+  match v with LM x => Some x | LNull => Some [] | _ => None end.
+
+(* coalesce(): all arguments are evaluated; they must have one type (null has any); the first non-null one is the
+   result; "no non-null arguments" is an error *)
+Definition coalesce2 (x y : lval) : option lval :=
+  match x, y with
+  | LNull, LNull => None
+  | LNull, v => Some v
+  | v, LNull => Some v
+  | LS _, LS _ => Some x
+  | LL _, LL _ => Some x
+  | LM _, LM _ => Some x
+  | _, _ => None
+  end.
 
 (* evaluation with the meaning of `local.n` given by `look` *)
 Fixpoint eval_with (look : str -> option lval) (e : lexpr) : option lval :=
@@ -66,7 +87,16 @@ Fixpoint eval_with (look : str -> option lval) (e : lexpr) : option lval :=
       end
   | EMerge a b =>
       match eval_with look a, eval_with look b with
-      | Some (LM x), Some (LM y) => Some (LM (merge_kvs x y))
+      | Some x, Some y =>
+          match as_map x, as_map y with
+          | Some x', Some y' => Some (LM (merge_kvs x' y'))
+          | _, _ => None
+          end
+      | _, _ => None
+      end
+  | ECoalesce a b =>
+      match eval_with look a, eval_with look b with
+      | Some x, Some y => coalesce2 x y
       | _, _ => None
       end
   end.
@@ -156,6 +186,7 @@ Fixpoint subst (look : str -> option lexpr) (e : lexpr) : option lexpr :=
   | ECat a b => match subst look a, subst look b with Some a', Some b' => Some (ECat a' b') | _, _ => None end
   | EConcat a b => match subst look a, subst look b with Some a', Some b' => Some (EConcat a' b') | _, _ => None end
   | EMerge a b => match subst look a, subst look b with Some a', Some b' => Some (EMerge a' b') | _, _ => None end
+  | ECoalesce a b => match subst look a, subst look b with Some a', Some b' => Some (ECoalesce a' b') | _, _ => None end
   end.
 
 Fixpoint inline_lookup (above : list block) (n : str) : option lexpr :=
@@ -174,8 +205,42 @@ Fixpoint ref_free (e : lexpr) : bool :=
   match e with
   | ELit _ => true
   | ERef _ => false
-  | ECat a b | EConcat a b | EMerge a b => ref_free a && ref_free b
+  | ECat a b | EConcat a b | EMerge a b | ECoalesce a b => ref_free a && ref_free b
   end.
 
 (* evaluation of a description that has no locals at all *)
 Definition eval_closed (e : lexpr) : option lval := eval_with (fun _ => None) e.
+
+(* ---- the attributes of the body: null leaves a field out ---------------------------------------------------------
+
+   gohcl.DecodeBody hands the value of an attribute to the Go field: a null value leaves a field that can be nil
+   (pointer: tag, body, weight, ...; map: headers; slice: requests) nil -- the AmmoHCL -> YAML hop then writes no key
+   (omitempty) or an empty collection, i.e. the field is LEFT OUT --, and is refused by a plain field (uri, method:
+   "null value is not allowed").  An attribute is (nullable, expression). *)
+Definition field_val (nullable : bool) (v : lval) : option (option lval) :=
+  match v with
+  | LNull => if nullable then Some None else None
+  | _ => Some (Some v)
+  end.
+
+Definition decode_attr (look : str -> option lval) (a : bool * lexpr) : option (option lval) :=
+  match eval_with look (snd a) with Some v => field_val (fst a) v | None => None end.
+
+Definition decode_fields (look : str -> option lval) (attrs : list (bool * lexpr)) : option (list (option lval)) :=
+  map_opt (decode_attr look) attrs.
+
+(* code shape / specification shape *)
+Definition parse_hcl_fields (blocks : list block) (attrs : list (bool * lexpr)) : option (list (option lval)) :=
+  match decode_locals blocks with
+  | None => None
+  | Some vars => decode_fields (fun n => assoc n vars) attrs
+  end.
+
+Definition spec_fields (blocks : list block) (attrs : list (bool * lexpr)) : option (list (option lval)) :=
+  if defs_ok (rev blocks) then decode_fields (lookup_above (rev blocks)) attrs else None.
+
+Definition is_null_val (o : option lval) : bool := match o with Some LNull => true | _ => false end.
+
+(* the same body with the attributes that evaluate to null deleted from the text *)
+Definition written_attrs (look : str -> option lval) (attrs : list (bool * lexpr)) : list (bool * lexpr) :=
+  filter (fun a => negb (is_null_val (eval_with look (snd a)))) attrs.
